@@ -5,7 +5,10 @@ from vlib.runner import Group, run_property
 SUM = ["deps.dev/util/semver.compare", "(deps.dev/util/semver.Set).matchVersion", "deps.dev/util/semver.canon$1"]
 NCONS = {0: 33, 4: 33, 1: 30, 2: 8}  # the templates after these indices are C11's
 NVERS = {0: 4, 4: 4, 1: 4, 2: 4}  # likewise
+EXTRA = {0: [35], 4: [35], 1: [], 2: []}  # templates beyond C11's
 QUICK = {0: [5, 6, 12, 24, 29], 4: [1, 7, 10, 24, 30], 1: [5, 9, 12, 26], 2: [0, 1, 5]}
+# further operand pairs of the quick tier: the argument of Intersect/Union keeps overlapping unmerged spans
+QUICK_PAIRS = {0: [(9, 35), (35, 9), (1, 35)], 4: [(9, 35), (35, 9), (2, 35)], 1: [], 2: []}
 
 
 def run(tier):
@@ -13,9 +16,10 @@ def run(tier):
     base = dict(unwind=60, timeout_s=900 if tier == "quick" else 3000, summarise=SUM, max_witnesses=1, witness_every=1000,
                 panic_is_violation=True)
     for sys in NCONS:
-        ts = QUICK[sys] if tier == "quick" else list(range(NCONS[sys]))
+        ts = QUICK[sys] if tier == "quick" else list(range(NCONS[sys])) + EXTRA[sys]
         tvs = [0, 1] if tier == "quick" else list(range(NVERS[sys]))
-        for ta, tb in itertools.product(ts, repeat=2):
+        pairs = list(itertools.product(ts, repeat=2)) + (QUICK_PAIRS[sys] if tier == "quick" else [])
+        for ta, tb in pairs:
             for tv in tvs:
                 jobs.append(dict(base, harness="VerifC09SetAlgebra", params={"sys": sys, "ta": ta, "tb": tb, "tv": tv, "order": 0 if tier == "quick" else 1}))
     return run_property("C09", tier, [Group("semver", jobs)],
